@@ -767,16 +767,20 @@ class WorkflowStateMachine(object):
             workflow_state.status in statuses.COMPLETED_STATUSES
             and workflow_state.status != statuses.CANCELED
         ):
-            unreachable_barriers = workflow_state.get_unreachable_barriers()
+            cls.fail_on_unreachable_barriers(workflow_state)
 
-            # If there are unreachable barrier tasks, then change workflow status to failed
-            # and write an error log for each case.
-            if unreachable_barriers:
-                workflow_state.status = statuses.FAILED
+    @classmethod
+    def fail_on_unreachable_barriers(cls, workflow_state):
+        unreachable_barriers = workflow_state.get_unreachable_barriers()
 
-                for entry in unreachable_barriers:
-                    e = exc.UnreachableJoinError(entry["id"], entry["route"])
-                    workflow_state.conductor.log_error(e, task_id=entry["id"], route=entry["route"])
+        # If there are unreachable barrier tasks, then change workflow status to failed
+        # and write an error log for each case.
+        if unreachable_barriers:
+            workflow_state.status = statuses.FAILED
+
+            for entry in unreachable_barriers:
+                e = exc.UnreachableJoinError(entry["id"], entry["route"])
+                workflow_state.conductor.log_error(e, task_id=entry["id"], route=entry["route"])
 
     @classmethod
     def add_context_to_workflow_event(cls, workflow_state, wf_ex_event):
@@ -830,6 +834,14 @@ class WorkflowStateMachine(object):
         # Assign new workflow status if there is change.
         if current_workflow_status != new_workflow_status:
             workflow_state.status = new_workflow_status
+
+        # If the workflow is completed by the event (i.e. on resume of a paused workflow that
+        # has nothing left to run), then ensure there is no unreachable barrier task(s).
+        if (
+            current_workflow_status != workflow_state.status
+            and workflow_state.status == statuses.SUCCEEDED
+        ):
+            cls.fail_on_unreachable_barriers(workflow_state)
 
     @classmethod
     def process_event(cls, workflow_state, event):
